@@ -39,12 +39,12 @@ P == CASE Profile = "c04q" ->
       [] Profile = "c04g" ->
             \* re-inclusion: guards and #pragma once, with the guard macros undefined between two inclusions
             [slots |-> <<<<"inc", "h.h">>, <<"src", "h.h">>>>,
-             bodies |-> {"guard", "once", "onceT", "def"}, stmts |-> {"qh", "undefG", "undefM"}, maxmain |-> 3, nmains |-> 1,
+             bodies |-> {"guard", "once", "onceT", "def", "selfinc"}, stmts |-> {"qh", "undefG", "undefM"}, maxmain |-> 3, nmains |-> 1,
              idirs |-> {<<Iu("inc")>>}, forced |-> {<<>>}, nents |-> 1, plats |-> <<"p1">>]
       [] Profile = "sim" ->
             [slots |-> <<<<"src", "h.h">>, <<"inc", "h.h">>, <<"sys", "h.h">>, <<"ext", "h.h">>,
                          <<"src", "g.h">>, <<"inc", "g.h">>, <<"ext", "g.h">>>>,
-             bodies |-> {"plain", "def", "guard", "once", "onceT", "testX", "undefX", "defX", "incq", "inca", "gincq", "indX"},
+             bodies |-> {"plain", "def", "guard", "once", "onceT", "selfinc", "testX", "undefX", "defX", "incq", "inca", "gincq", "indX"},
              stmts |-> {"qh", "ah", "qg", "ag", "defX", "undefX", "testX", "valX", "mq", "ma", "dead", "undefM", "undefG", "inch", "indX"},
              maxmain |-> 4, nmains |-> 2,
              idirs |-> {<<Iu("inc"), Is("sys")>>, <<Iu("inc")>>, <<Is("sys"), Iu("inc")>>, <<Iu("sys"), Iu("inc")>>, <<>>,
@@ -131,6 +131,9 @@ Body(b, d, n) ==
     [] b = "undefX" -> <<[k |-> "undef", m |-> "X"], C>>
     [] b = "defX"   -> <<Def("X", "1"), C>>
     [] b = "incq"   -> <<Def(Mk(d), "1"), Inc("q", Other(n)), C>>
+    \* a header that includes ITSELF (the guard bounds the recursion) and has text after the guarded part: the
+    \* nested pass sees X undefined and defines it, the outer pass then sees it defined
+    [] b = "selfinc" -> <<IfNdef(G(n)), Def(G(n), ""), Inc("q", n), Endif, IfDef("X"), C, Else, C, Endif, Def("X", "1")>>
     [] b = "inca"   -> <<Def(Mk(d), "1"), Inc("a", Other(n)), C>>
     [] b = "gincq"  -> <<IfNdef(G(n)), Def(G(n), ""), Inc("q", Other(n)), C, Endif>>
     [] b = "miss"   -> <<C, Inc("q", "nope.h"), Inc("a", "nope.h"), C>>
